@@ -235,27 +235,31 @@ Proof.
   - apply Rmult_le_reg_r with N; [lra|]. unfold Rdiv. rewrite Rmult_assoc, Rinv_l by lra. lra.
 Qed.
 
+(* every intermediate is a linear expression in the atoms  x j - M, M, exp (x j - M), the normaliser N, ln N  (or the
+   result exp(.)/N): the proof does not depend on the names, the order or the number of the intermediates *)
+Ltac bound_intermediate j Hj :=
+  let Ha := fresh "Ha" in let Hs := fresh "Hs" in let He0 := fresh "He0" in let He1 := fresh "He1" in
+  pose proof (shift_abs j Hj) as Ha; apply Rabs_bnd in Ha;
+  pose proof (shift_nonpos j Hj) as Hs;
+  pose proof (exp_pos (x j - M)) as He0; pose proof (exp_le_1 _ Hs) as He1;
+  first [ apply Rabs_le; lra
+        | let Hr := fresh "Hr" in
+          pose proof (softmax_range_proof j Hj) as Hr; unfold softmax_forward in Hr; cbv beta zeta in Hr; fold M in Hr;
+          apply Rabs_le; lra ].
+
 Lemma softmax_no_overflow_proof :
   List.Forall (fun v : vec => forall j, (j < n)%nat -> Rabs (v j) <= 2 * B + INR n) (softmax_forward_intermediates n x).
 Proof.
-  pose proof B_nonneg as HB0. pose proof INR_n_ge_1 as Hn1.
-  destruct shifted_sum_range as [H1 H2].
-  assert (Hexp : forall j, (j < n)%nat -> Rabs (exp (x j - M)) <= 2 * B + INR n).
-  { intros j Hj. rewrite Rabs_right by (left; apply exp_pos).
-    pose proof (exp_le_1 _ (shift_nonpos j Hj)). lra. }
-  unfold softmax_forward_intermediates. cbv zeta. fold M. repeat apply Forall_cons; try apply Forall_nil.
-  (* whatever the order of the intermediates: each is one of the four kinds below *)
-  all: intros j Hj;
-    solve [ pose proof (shift_abs j Hj); lra
-          | apply Hexp, Hj
-          | rewrite Rabs_right by lra; lra
-          | pose proof (softmax_range_proof j Hj) as Hr; unfold softmax_forward in Hr; cbv zeta in Hr; fold M in Hr;
-            rewrite Rabs_right by lra; lra ].
+  pose proof B_nonneg as HB0. pose proof INR_n_ge_1 as Hn1. pose proof ln_n_le_n as Hln.
+  destruct shifted_sum_range as [S1 S2]. destruct ln_shifted_sum_range as [L1 L2].
+  pose proof M_abs as HM. apply Rabs_bnd in HM.
+  unfold softmax_forward_intermediates. cbv beta zeta. fold M. repeat apply Forall_cons; try apply Forall_nil.
+  all: intros j Hj; bound_intermediate j Hj.
 Qed.
 
 Lemma log_softmax_range_proof j : (j < n)%nat -> - (2 * B + ln (INR n)) <= log_softmax_forward n x j <= 0.
 Proof.
-  intros Hj. unfold log_softmax_forward. cbv zeta. fold M.
+  intros Hj. unfold log_softmax_forward. cbv beta zeta. fold M.
   destruct ln_shifted_sum_range as [H1 H2].
   pose proof (shift_abs j Hj) as Ha. apply Rabs_bnd in Ha.
   pose proof (shift_nonpos j Hj). lra.
@@ -265,17 +269,10 @@ Lemma log_softmax_no_overflow_proof :
   List.Forall (fun v : vec => forall j, (j < n)%nat -> Rabs (v j) <= 2 * B + INR n) (log_softmax_forward_intermediates n x).
 Proof.
   pose proof B_nonneg as HB0. pose proof INR_n_ge_1 as Hn1. pose proof ln_n_le_n as Hln.
-  destruct ln_shifted_sum_range as [L1 L2]. pose proof M_abs as HM.
-  assert (Hres : forall j, (j < n)%nat -> Rabs (x j - (M + ln (vsum n (fun k => exp (x k - M))))) <= 2 * B + INR n).
-  { intros j Hj. pose proof (shift_abs j Hj) as Ha. apply Rabs_bnd in Ha.
-    apply Rabs_le. lra. }
-  unfold log_softmax_forward_intermediates. cbv zeta. fold M. repeat apply Forall_cons; try apply Forall_nil.
-  all: intros j Hj;
-    solve [ lra
-          | pose proof (shift_abs j Hj); lra
-          | rewrite Rabs_right by (left; apply exp_pos); pose proof (exp_le_1 _ (shift_nonpos j Hj)); lra
-          | apply Rabs_bnd in HM; apply Rabs_le; lra
-          | apply Hres, Hj ].
+  destruct shifted_sum_range as [S1 S2]. destruct ln_shifted_sum_range as [L1 L2].
+  pose proof M_abs as HM. apply Rabs_bnd in HM.
+  unfold log_softmax_forward_intermediates. cbv beta zeta. fold M. repeat apply Forall_cons; try apply Forall_nil.
+  all: intros j Hj; bound_intermediate j Hj.
 Qed.
 
 End NoOverflow.
